@@ -98,6 +98,29 @@ Theorem C05_while_is_python_loop : forall C cond_fn body_fn,
   exists cur, ploop C cond_fn body_fn fuel (fun col => om col && in_filter cf col) xs c0 = Some (Some (c, cur)) /\ cveq xs' cur.
 Proof. exact while_is_loop. Qed.
 Print Assumptions C05_while_is_python_loop.
+(* ... and the other way round: when the Python loop succeeds, the body keeps the structure of the collections it may mutate
+   (lax.while_loop demands it) and its traced first evaluation succeeds, the lifted loop succeeds with the same carry and
+   variables *)
+Theorem C05_python_loop_is_while : forall C cond_fn body_fn,
+  (forall v v' m c, cveq v v' -> cond_fn v m c = cond_fn v' m c) ->
+  (forall v v' m m' c, cveq v v' -> (forall x, m x = m' x) ->
+     match body_fn v m c, body_fn v' m' c with
+     | Some (c1, w), Some (c2, w') => c1 = c2 /\ cveq w w'
+     | None, None => True
+     | _, _ => False
+     end) ->
+  (forall v m c c1 w, body_fn v m c = Some (c1, w) -> forall col k, m col = false -> cv_entry w col k = cv_entry v col k) ->
+  forall om cf xs, cwf xs ->
+  (forall v c c1 w, body_fn v (inner_mutable om [cf] (fun _ => true)) c = Some (c1, w) ->
+     cshape (filter (fun cv => inner_mutable om [cf] (fun _ => true) (fst cv)) w) =
+     cshape (filter (fun cv => inner_mutable om [cf] (fun _ => true) (fst cv)) v)) ->
+  forall fuel (c0 c : C) cur r,
+  wbody C body_fn (inner_mutable om [cf] (fun _ => true)) cf (filter (fun cv => in_filter cf (fst cv)) xs)
+        (filter (fun cv => negb (in_filter cf (fst cv))) xs) c0 = Some r ->
+  ploop C cond_fn body_fn fuel (fun col => om col && in_filter cf col) xs c0 = Some (Some (c, cur)) ->
+  exists xs', lift_while C cond_fn body_fn fuel om cf (FBool true) xs c0 = Some (POk C c xs') /\ cveq xs' cur.
+Proof. exact loop_is_while. Qed.
+Print Assumptions C05_python_loop_is_while.
 (* ... in particular for every program of the statement language the correspondence check runs on the real lift.while_loop *)
 Theorem C05_while_is_python_loop_for_programs : forall cond limit body fuel om cf xs c0 c xs', cwf xs ->
   lift_while Z (kcond cond limit) (krun body) fuel om cf (FBool true) xs c0 = Some (POk Z c xs') ->
